@@ -163,7 +163,7 @@ def eval_image(ctx, case):
             if text_f1 and cuts and cuts[0] < len(data):
                 kn = 'F1'
             judge(ctx, dict(case, failing=[klass, cuts]), 'wrapper', verdict, resp, outcome, kn)
-        elif verdict == 'accept' and not text_f1:
+        elif verdict == 'accept' and not text_f1 and ig.sigs(data) <= {name}:
             ctx.clause('must-accept')
             ctx.fail('must-accept', dict(case, failing=[klass, cuts], path='wrapper'),
                      {'detected': detected, 'want_format': name})
@@ -232,7 +232,7 @@ def eval_cli(ctx, case, data, name, verdict, text_f1, subprocess_too):
             ctx.fail('must-reject', dict(case, path='cli'), {'status': 0, 'detected': detected}, known=kn)
         if verdict == 'accept' and status != 0:
             ctx.fail('must-accept', dict(case, path='cli'), {'status': status, 'library': lib})
-    elif verdict == 'accept' and not text_f1:
+    elif verdict == 'accept' and not text_f1 and ig.sigs(data) <= {name}:
         ctx.fail('must-accept', dict(case, path='cli'), {'detected': detected, 'want_format': name})
     elif verdict == 'reject' and status == 0 and name in ig.sigs(data):
         ctx.fail('must-reject', dict(case, path='cli'), {'status': 0, 'detected_as': detected, 'signature_present': name})
